@@ -73,6 +73,9 @@ func (g *Goroutine) spawn(fr *frame, fnv Value, args []Value) {
 	ng.fnv = fnv
 	ng.args = args
 	ng.state = gRunnable
+	if r := g.p.race; r != nil {
+		r.fork(g, ng)
+	}
 	go ng.main()
 }
 
@@ -177,11 +180,24 @@ func (s *Sched) schedule(cur *Goroutine, exiting bool) {
 					rs = others
 				}
 			}
+			stay := false
+			if !exiting && cur.state == gRunnable {
+				for _, r := range rs {
+					if r == cur {
+						stay = true
+					}
+				}
+			}
 			if len(rs) == 1 {
 				next = rs[0]
+			} else if s.p.schedForks && stay && s.p.preemptBound && s.p.preemptLeft <= 0 {
+				next = cur // pre-emption budget used up: voluntary yields no longer switch
 			} else if s.p.schedForks {
 				// schedule exploration: which runnable goroutine continues is a decision
 				next = rs[s.p.choose(len(rs))]
+				if stay && next != cur && s.p.preemptBound {
+					s.p.preemptLeft--
+				}
 			} else {
 				// deterministic round-robin: the next goroutine id after the current one
 				next = rs[0]
@@ -426,6 +442,9 @@ func (g *Goroutine) tryRecv(c *Chan) (Value, bool, bool) {
 }
 
 func (g *Goroutine) chanSend(fr *frame, cv Value, v Value) {
+	if r := g.p.race; r != nil && cv.R != nil {
+		r.release(g, cv.R)
+	}
 	if cv.R == nil {
 		g.block("send on nil chan", func() bool { return false })
 		return
@@ -448,6 +467,9 @@ func (g *Goroutine) chanRecv(fr *frame, cv Value) (Value, bool) {
 		g.block("recv on nil chan", func() bool { return false })
 		return Value{}, false
 	}
+	if r := g.p.race; r != nil {
+		defer r.acquire(g, cv.R)
+	}
 	c := cv.R.(*Chan)
 	if v, ok, done := g.tryRecv(c); done {
 		return v, ok
@@ -467,6 +489,9 @@ func (g *Goroutine) chanClose(fr *frame, cv Value) {
 		panic(&goPanic{val: g.w.prog.runtimeError("close of nil channel"), site: fr.stableSite(), msg: "close of nil channel", runtime: true})
 	}
 	c := cv.R.(*Chan)
+	if r := g.p.race; r != nil {
+		r.release(g, cv.R)
+	}
 	if c.closed {
 		panic(&goPanic{val: g.w.prog.runtimeError("close of closed channel"), site: fr.stableSite(), msg: "close of closed channel", runtime: true})
 	}
@@ -498,7 +523,17 @@ func (g *Goroutine) selectOp(fr *frame, ins *ssa.Select) Value {
 			cases[i].val = fr.get(st.Send)
 		}
 	}
+	if r := g.p.race; r != nil {
+		for _, c := range cases {
+			if c.c != nil && c.send {
+				r.release(g, c.c)
+			}
+		}
+	}
 	result := func(chosen int, rv Value, ok bool) Value {
+		if r := g.p.race; r != nil && chosen >= 0 && cases[chosen].c != nil && !cases[chosen].send {
+			r.acquire(g, cases[chosen].c)
+		}
 		out := []Value{mkInt(64, uint64(int64(chosen))), mkBool(ok)}
 		for i, st := range ins.States {
 			if st.Dir == types.RecvOnly {
